@@ -22,6 +22,7 @@ var m3ViaConfiguration bool
 
 // m3Env is one M3 reporter lifetime with its loopback sinks.
 type m3Env struct {
+	ExtraDests int // destinations given in opts.HostPorts that are not sinks (dead ports)
 	Sinks    []*mon.Sink
 	Opts     m3.Options
 	Rep      m3.Reporter
@@ -57,7 +58,7 @@ func newM3Env(nSinks int, opts m3.Options, inner func(int)) (*m3Env, error) {
 // newM3EnvPorts: lowPorts puts the sinks below the ephemeral port range (for
 // lifetimes that close a sink while the reporter is still sending).
 func newM3EnvPorts(nSinks int, opts m3.Options, inner func(int), lowPorts bool) (*m3Env, error) {
-	e := &m3Env{inner: inner}
+	e := &m3Env{inner: inner, ExtraDests: len(opts.HostPorts)}
 	for i := 0; i < nSinks; i++ {
 		newSink := mon.NewSink
 		if lowPorts {
@@ -108,7 +109,7 @@ func (e *m3Env) finish() (complete bool, why string) {
 	if len(e.Sinks) == 0 {
 		return true, ""
 	}
-	per := total / len(e.Sinks)
+	per := total / (len(e.Sinks) + e.ExtraDests)
 	for i, s := range e.Sinks {
 		if !s.WaitFor(per, 10*time.Second) {
 			return false, fmt.Sprintf("sink %d received %d of %d datagrams (kernel drops=%d)", i, s.Count(), per, s.Drops())
